@@ -25,7 +25,7 @@ EXPLANATION = (
     "skip/stride/atom_indices/chunk dependence.")
 NOT_DECIDED = ["equality of the values read (run-time)", "the XDR offset arithmetic inside C", "efficient-striding seek path of xtc/trr beyond its structure"]
 ASSUMPTIONS = ["read_next_timestep / read_xtc / read_trr consume exactly one frame per successful call"]
-FLOORS = {"C02-R1": 30, "C02-R2": 10, "C02-R3": 3, "C02-R4": 6, "C02-R5": 15, "C02-R6": 8, "C02-R7": 8}
+FLOORS = {"C02-R1": 30, "C02-R2": 8, "C02-R3": 3, "C02-R4": 6, "C02-R5": 15, "C02-R6": 8, "C02-R7": 8, "C02-R8": 19}
 
 LOADERS = {  # ext -> class key
     ".xtc": "xtc", ".trr": "trr", ".dcd": "dcd", ".dtr": "dtr", ".h5": "h5", ".nc": "nc", ".mdcrd": "mdcrd", ".xyz": "xyz",
@@ -59,6 +59,7 @@ def check(ctx):
     ctx.rule("C02-R5", "topology.subset(atom_indices) is applied iff atom_indices is not None, and the subset topology is the one handed to Trajectory")
     ctx.rule("C02-R7", "every array handed to read_xtc / read_trr as a per-frame buffer is allocated for as many atoms as the reader is told to write (the file's atoms, "
                        "not the atoms selected): on every path on which the call can be reached")
+    ctx.rule("C02-R8", "text formats: read(n, stride, atom_indices) / seek / tell evaluated on a 7-frame model file written by the format's own writer - the frames, atoms, cell and time rows returned and the cursor are those of the definition, over sequences of calls")
     ctx.rule("C02-R6", "iterload: every branch applies skip, stride and atom_indices and yields chunks of `chunk`; load(list): every file gets the same kwargs, joined with check_topology=False")
     reg = F.registry(ctx)
 
@@ -146,6 +147,7 @@ def check(ctx):
     _r5_index_arrays(ctx)
     _r6(ctx)
     _r7_reader_buffers(ctx)
+    _r8_text_readers(ctx)
 
 
 # ---------------------------------------------------------------------------------------------
@@ -320,7 +322,8 @@ def _rat_by_evaluation(ctx):
 
 # ---------------------------------------------------------------------------------------------
 def _r2(ctx):
-    for key in ["h5", "nc", "xtc", "trr", "dcd", "dtr", "mdcrd", "xyz", "lammpstrj", "gro", "arc", "lh5"]:
+    # the text formats xyz, mdcrd, lammpstrj, gro: decided by value in R8 (read() evaluated on a model file)
+    for key in ["h5", "nc", "xtc", "trr", "dcd", "dtr", "arc", "lh5"]:
         rel, cls = F.rel_cls(key)
         mname = "_read" if key in ("xtc", "trr") else "read"
         fn = F.method(ctx, key, mname)
@@ -774,3 +777,104 @@ def _r7_reader_buffers(ctx):
                                        "the reader writes %s atoms into `%s`, which is allocated for `%s` atoms%s: with atom_indices given and this call reached (e.g. the frames skipped "
                                        "by read(stride=s) before the offsets are known) memory behind the buffer is overwritten"
                                        % (natoms, buf, bad[0][0] if bad else "", (" when " + " and ".join("%s is %s" % (t, p) for t, p in bad[0][1])) if bad and bad[0][1] else ""))
+
+
+# ---------------------------------------------------------------------------------------------
+def _r8_text_readers(ctx):
+    """read() / seek() / tell() of the text formats evaluated (sa/tensym.py, sa/ttext.py) on a model file of seven frames that the format's own
+    writer produced from symbolic frames (sa/writers.py).  Decided by value for sequences of calls on one file object: read(n, stride=s) at cursor
+    P returns exactly the frames P, P+s, ... (n of them, or up to the end) and leaves the cursor at P + n*s (the end for n None), so the next read
+    continues there; atom_indices selects those atoms, in the order given, of the same frames; cell / time rows belong to the frames returned;
+    seek(k) makes the next read start at frame k."""
+    from .. import writers as W
+    from ..tensym import Raised, Ten
+    from ..pysym import Unsupported as PUnsupported
+    NF = 7
+    seqs = [
+        ("strided reads continue where the last one stopped", [("read", dict(n_frames=2, stride=2)), ("read", dict(n_frames=1)), ("read", dict(stride=3))]),
+        ("n_frames counts frames returned", [("read", dict(n_frames=3, stride=3)), ("read", dict())]),
+        ("atom selection of strided frames", [("read", dict(stride=2, atom_indices=[2, 0]))]),
+        ("seek, then read", [("seek", 5), ("read", dict()), ("seek", 1), ("read", dict(n_frames=2, stride=2)), ("tell", None)]),
+    ]
+    if ctx.tier == "thorough":
+        seqs += [("stride larger than what is left", [("read", dict(n_frames=1, stride=5)), ("read", dict(n_frames=2, stride=4)), ("read", dict())]),
+                 ("single frames", [("seek", 6), ("read", dict(n_frames=1)), ("read", dict(n_frames=1))]),
+                 ("all at once with a selection", [("read", dict(atom_indices=[1]))])]
+    for key in ("xyz", "mdcrd", "lammpstrj", "gro"):
+        rel, cls = F.rel_cls(key)
+        rfn = F.method(ctx, key, "read")
+        q = cls + ".read"
+        # mdcrd holds ten numbers per line: also a frame that fills its last line exactly (10 atoms = 30 numbers)
+        for na, cell, (title, seq) in [(W.N_ATOMS, True, ts_) for ts_ in seqs] + ([(10, True, seqs[0]), (10, False, seqs[0]), (10, False, seqs[3]), (W.N_ATOMS, False, seqs[0])] if key == "mdcrd" else []):
+            desc = "%s%s: %s" % (title, "" if (na == W.N_ATOMS and cell) else " (%d atoms%s)" % (na, "" if cell else ", no cell"), ", ".join("%s(%s)" % (m_, ", ".join("%s=%s" % kv for kv in a_.items()) if isinstance(a_, dict) else ("" if a_ is None else a_)) for m_, a_ in seq))
+            try:
+                root = W.new_root()
+                world = W.World(NF, cell=cell, ortho=True, time=True, n_atoms=na)
+                pieces = W.written(ctx, key, world, [(0, NF)], root)
+                fh = W.text_file(pieces)
+                fields = {"mdcrd": dict(_n_atoms=na, _has_box=None), "gro": dict(n_atoms=na)}.get(key, {})
+                me = W.reader_object(ctx, key, fh, **fields)
+                if key == "mdcrd":
+                    fh.readline()
+
+                def reopen(ev, call, _pieces=pieces, _me=me, _key=key):
+                    f2 = W.text_file(_pieces)
+                    return f2
+                models = {"open": reopen, "open_maybe_zipped": reopen}
+                P, why = 0, []
+                for m_, a_ in seq:
+                    if m_ == "seek":
+                        try:
+                            W.read_call(ctx, key, me, "seek", root, models=models, offset=a_)
+                        except Raised as e:
+                            if "NotImplementedError" in (e.exc or ""):
+                                why = None      # the format offers no seek (it says so): nothing to decide for this sequence
+                                break
+                            raise
+                        if key == "mdcrd" and getattr(me, "_fh", None) is not fh and getattr(me._fh, "_state", {}).get("k") == 0:
+                            pass
+                        P = a_
+                        continue
+                    if m_ == "tell":
+                        t_ = W.read_call(ctx, key, me, "tell", root, models=models)
+                        if ctx_pyval(t_) != P:
+                            why.append("tell() is %s after the cursor has reached frame %d" % (t_, P))
+                        continue
+                    n_, s_ = a_.get("n_frames"), a_.get("stride") or 1
+                    want = [f_ for f_ in range(P, NF, s_)]
+                    if n_ is not None:
+                        want = want[:n_]
+                    sel = a_.get("atom_indices")
+                    got = W.read_call(ctx, key, me, "read", root, models=models, **a_)
+                    res = list(got) if isinstance(got, tuple) else [got]
+                    xyz = res[0]
+                    atoms = sel if sel is not None else list(range(na))
+                    exp = [world.x.data[(f_ * na + at_) * 3 + k_] for f_ in want for at_ in atoms for k_ in range(3)]
+                    ok = isinstance(xyz, Ten) and (list(xyz.shape) == [len(want), len(atoms), 3] or (not want and len(xyz.data) == 0)) and all(_same(a1, b1) for a1, b1 in zip(xyz.data, exp))
+                    if not ok:
+                        first = [repr(xyz.data[i_ * len(atoms) * 3]) for i_ in range(xyz.shape[0])] if isinstance(xyz, Ten) and xyz.ndim == 3 and xyz.shape[1:] == (len(atoms), 3) else getattr(xyz, "shape", xyz)
+                        why.append("%s at frame %d returns %s, the definition is frames %s%s" % ("read(%s)" % ", ".join("%s=%s" % kv for kv in a_.items()), P, first, want, "" if sel is None else " of atoms %s" % sel))
+                    # rows of cell / time belong to the same frames
+                    if key == "mdcrd" and cell and want and len(res) > 1 and isinstance(res[1], Ten):
+                        if not all(_same(a1, b1) for a1, b1 in zip(res[1].data, [world.L.data[f_ * 3 + k_] for f_ in want for k_ in range(3)])) or res[1].shape[0] != len(want):
+                            why.append("the cell lengths returned are not those of frames %s" % want)
+                    if key == "gro" and want and len(res) > 2 and isinstance(res[1], Ten):
+                        if not all(_same(a1, b1) for a1, b1 in zip(res[1].data, [world.t.data[f_] for f_ in want])) or res[1].shape[0] != len(want):
+                            why.append("the times returned are not those of frames %s" % want)
+                    P = min(NF, P + (n_ * s_ if n_ is not None else NF))
+                if why is None:
+                    ctx.note("C02-R8", rfn, rel, q, desc, "seek() is not implemented by this format (NotImplementedError)")
+                    continue
+                ctx.decide(not why, "C02-R8", rfn, rel, q, desc, "", "; ".join(why[:2]))
+            except Raised as e:
+                ctx.violated("C02-R8", rfn, rel, q, desc, "refused: %s" % (e.exc or e))
+            except PUnsupported as e:
+                ctx.undecided("C02-R8", rfn, rel, q, desc, "not evaluable: %s" % e)
+
+
+def ctx_pyval(v):
+    from ..tensym import Rat
+    if isinstance(v, Rat):
+        c = v.const_value()
+        return int(c) if c is not None and c.denominator == 1 else v
+    return v
